@@ -185,6 +185,13 @@ def run(ctx):
             for k in ("ctx", "cmut", "cdes", "csig", "csigmut", "tamper_cases_modelled", "flips_swept", "truncs_swept", "otherids_swept",
                       "sig_text_aliases_accepted", "sig_undecodable", "malleated", "malleated_accepted", "model_bytes_compared"):
                 cov[k] = total.get(k, 0)
+            if total.get("sig_text_aliases_accepted", 0) > 0:
+                # an altered signature TEXT (letter case changed) that still verifies: against the letter of the property
+                ctx.add_violation("a signature text with the case of a letter changed decodes to the same 65 bytes and verifies for the signer "
+                                  f"({total['sig_text_aliases_accepted']} such mutations accepted)",
+                                  {"kind": "crypto-observation", "what": "zbase32 letter case ignored by lightning::util::zbase32 decoding",
+                                   "example": "sk=1 msg='test message' sig='D9tibmnic9t5y41hg7hkakdcra94akas9ku3rmmj4ag9mritc8ok4p5qzefs78c9pqfhpuftqqzhydbdwfg7u6w6wdxcqpqn4sj4e73e' (first letter upper-cased) verifies"},
+                                  {"kind": "sig-text-case-alias"})
             cov["exhaustive"] = True
             cov["rule"] = (
                 "CTX: random transactions (0-4 inputs/outputs, legacy and BIP-144, witness stacks with element sizes {0,1,32,33,71-73,252,253,300}, "
